@@ -6,6 +6,7 @@ package main
 
 import (
 	"fmt"
+	"sync"
 	"go/ast"
 	"go/token"
 	"go/types"
@@ -100,6 +101,10 @@ type VC struct {
 	wrapFns      map[string]bool
 	boundMemo    map[string]interval
 	varBounds    map[string]interval
+	genPanic     string
+	defSymMemo   map[string]map[string]bool
+	qmu          sync.Mutex
+	factSymMemo  map[int]map[string]bool
 }
 
 func newVC(prog *Prog, fn *FuncInfo, mode Mode) *VC {
@@ -108,7 +113,7 @@ func newVC(prog *Prog, fn *FuncInfo, mode Mode) *VC {
 		decls: map[string]string{}, dtByName: map[string]*Sort{}, sortMemo: map[string]*Sort{},
 		oblNames: map[string]int{}, assumptions: map[string]bool{}, havocked: map[string]bool{},
 		callees: map[string]bool{}, inlined: map[string]bool{}, specAxioms: map[string]bool{},
-		pendingSpecs: map[*FuncInfo]bool{}, doneSpecs: map[*FuncInfo]bool{}, defs: map[string]*Term{}, rowCopies: map[string]rowCopyDef{}, specCache: map[string][]*Term{}, wrapFns: map[string]bool{}, boundMemo: map[string]interval{}, varBounds: map[string]interval{},
+		pendingSpecs: map[*FuncInfo]bool{}, doneSpecs: map[*FuncInfo]bool{}, defs: map[string]*Term{}, rowCopies: map[string]rowCopyDef{}, specCache: map[string][]*Term{}, wrapFns: map[string]bool{}, defSymMemo: map[string]map[string]bool{}, boundMemo: map[string]interval{}, varBounds: map[string]interval{},
 	}
 }
 
@@ -573,6 +578,17 @@ func (c *VC) binop(op token.Token, a, b *Term, t types.Type) *Term {
 		s := bvSort(w)
 		switch op {
 		case token.ADD:
+			// left-associate sums (x + (y + z)) -> ((x + y) + z) so that index expressions
+			// built in different orders are syntactically closer (helps e-matching)
+			if b.Op == "bvadd" && len(b.Args) == 2 && b.Val == nil {
+				return mk("bvadd", s, c.binop(token.ADD, a, b.Args[0], t), b.Args[1])
+			}
+			if a.Val != nil && a.Val.Sign() == 0 {
+				return b
+			}
+			if b.Val != nil && b.Val.Sign() == 0 {
+				return a
+			}
 			return mk("bvadd", s, a, b)
 		case token.SUB:
 			return mk("bvsub", s, a, b)
@@ -1076,7 +1092,11 @@ func (c *VC) preamble() string {
 // symbol, transitively, with the goal cannot affect validity... they could make
 // the context inconsistent, which can only hide a failure if the context is
 // contradictory; the vacuity canaries guard against that using ALL facts).
-func (c *VC) query(o *Obligation, allFacts bool) string {
+func (c *VC) query(o *Obligation, allFacts bool) string { return c.queryX(o, allFacts, nil) }
+
+func (c *VC) queryX(o *Obligation, allFacts bool, extra []*Term) string {
+	c.qmu.Lock()
+	defer c.qmu.Unlock()
 	facts := c.facts[:o.NFacts]
 	keep := make([]bool, len(facts))
 	syms := map[string]bool{}
@@ -1093,16 +1113,42 @@ func (c *VC) query(o *Obligation, allFacts bool) string {
 	}
 	addSyms(o.PC)
 	addSyms(o.Goal)
+	for _, e := range extra {
+		addSyms(e)
+	}
 	for _, a := range c.axioms {
 		addSyms(a)
 	}
 	fsyms := make([]map[string]bool, len(facts))
+	if c.factSymMemo == nil {
+		c.factSymMemo = map[int]map[string]bool{}
+	}
 	for i, f := range facts {
+		if m, ok := c.factSymMemo[i]; ok {
+			fsyms[i] = m
+			continue
+		}
 		m := map[string]bool{}
 		symbols(f, m)
 		for k := range m {
 			if !c.isUserSym(k) {
 				delete(m, k)
+			}
+		}
+		c.factSymMemo[i] = m
+		// close under let-definitions: a fact about a named value is a fact about what it names
+		var stack []string
+		for k := range m {
+			stack = append(stack, k)
+		}
+		for len(stack) > 0 {
+			k := stack[len(stack)-1]
+			stack = stack[:len(stack)-1]
+			for d := range c.defSyms(k) {
+				if !m[d] {
+					m[d] = true
+					stack = append(stack, d)
+				}
 			}
 		}
 		fsyms[i] = m
@@ -1189,6 +1235,26 @@ func (c *VC) query(o *Obligation, allFacts bool) string {
 	}
 	sb.WriteString("(check-sat)\n")
 	return sb.String()
+}
+
+// defSyms returns the user symbols occurring directly in the definition of k (nil if k is not a let-name).
+func (c *VC) defSyms(k string) map[string]bool {
+	if m, ok := c.defSymMemo[k]; ok {
+		return m
+	}
+	d, ok := c.defs[k]
+	if !ok {
+		return nil
+	}
+	m := map[string]bool{}
+	symbols(d, m)
+	for s := range m {
+		if !c.isUserSym(s) {
+			delete(m, s)
+		}
+	}
+	c.defSymMemo[k] = m
+	return m
 }
 
 func hasQuant(t *Term) bool {
